@@ -15,7 +15,7 @@ EQUIVALENTS = [
       "        negated = np.negative(self.array)\n        return self.__class__(\n            self.mesh,\n            nvdim=self.nvdim,\n            value=negated,"),
     e("eq-neg-kw-order", ["C08", "C03"], F, "            value=-self.array,\n            vdims=self.vdims,\n            valid=self.valid,", "            valid=self.valid,\n            value=-self.array,\n            vdims=self.vdims,"),
     e("eq-rsub-reorder", ["C03"], F, "return -self + other", "return other + (-self)"),
-    e("eq-translate-plus", ["C13"], R, "self._pmin = np.add(self.pmin, vector)", "self._pmin = self.pmin + np.asarray(vector)"),
+    e("eq-translate-plus", ["C13"], R, "            pmin = np.add(self.pmin, vector)", "            pmin = self.pmin + np.asarray(vector)"),
     e("eq-scale-formula", ["C13"], R, "pmin = reference_point - (reference_point - self.pmin) * factor", "pmin = reference_point + factor * (self.pmin - reference_point)"),
     e("eq-rot-theta-temp", ["C12", "C13"], R, "        p1_rot = np.dot(rot_matrix, p1_inplane)", "        rotation = rot_matrix\n        p1_rot = np.dot(rotation, p1_inplane)"),
     e("eq-field-theta", ["C12", "C08"], F, "theta = k * np.pi / 2", "theta = np.pi * k * 0.5"),
